@@ -58,7 +58,7 @@ def Tot (f : Enc → Except CErr Enc) (e : Enc) : Prop :=
 mutual
 theorem encN_total (nS nM : Nat) : ∀ (t : Node), t.lin = true → ∀ e : Enc, Tot (encN nS nM t) e
   | .ev ev, hl, e => by
-    obtain ⟨e', h, p, b, sp, _⟩ := encEv_lin nS nM e ev (by simpa [Node.lin] using hl)
+    obtain ⟨e', h, p, b, sp⟩ := encEv_lin_total nS nM e ev (by simpa [Node.lin] using hl)
     exact ⟨e', by simpa [encN] using h, p, b, sp⟩
   | .loop body n, hl, e => by
     obtain ⟨e2, h2, p2, _, sp2⟩ := encL_total nS nM body (by simpa [Node.lin] using hl) (afterLP e)
